@@ -9,4 +9,4 @@ RULE = ("schema-free part on packages generated from the repository schemas (out
 
 def run(ctx):
     codec.simple_check(ctx, "c13", RULE, [("types", "types", 100), ("values", "values", 3000), ("huge-form sizes", "huge_form_sizes", 3000),
-                                          ("oversize objects", "oversize_objects", 3000)], 40, 300)
+                                          ("oversize objects", "oversize_objects", 3000)], 40, 300, random_quick=2, random_thorough=20)
